@@ -101,62 +101,69 @@ def layout_rules(ctx):
 
 def csr_rules(ctx):
     repo = ctx.repo
+    from ..flow import Locals
+
     r = ctx.rule("R3.3", "cached CSR map: data and map built from the same filtered group tuple; map body reads only its key; inv from the map's own pattern", min_instances=6)
     simu = repo.cls(SIMU)
     fa = simu.methods["__Assemble_csr"]
     fm = simu.methods["__Get_csr_map"]
+    L = Locals(fa.node)
     r.instance(fn=fa.qualname)
-    # groups comprehension with the `is not None` filter
-    groups_def = None
-    data_def = None
-    map_call = None
-    for n in ast.walk(fa.node):
-        if isinstance(n, ast.Assign) and len(n.targets) == 1 and isinstance(n.targets[0], ast.Name):
-            t = n.targets[0].id
-            if t == "groups":
-                groups_def = n
-            if t == "data" and "concatenate" in norm_text(n.value):
-                data_def = n
-        if isinstance(n, ast.Call) and (dotted(n.func) or "").endswith("__Get_csr_map"):
-            map_call = n
-    if groups_def is None or data_def is None or map_call is None:
-        raise AnalysisError("R3.3: __Assemble_csr no longer has the groups/data/map structure")
-    gtxt = norm_text(groups_def.value)
-    comp = [c for c in ast.walk(groups_def.value) if isinstance(c, (ast.GeneratorExp, ast.ListComp))]
-    has_filter = bool(comp) and any(isinstance(i, ast.Compare) and isinstance(i.ops[0], ast.IsNot) and isinstance(i.comparators[0], ast.Constant) and i.comparators[0].value is None for c in comp for g in c.generators for i in g.ifs)
+    map_calls = [n for n in ast.walk(fa.node) if isinstance(n, ast.Call) and (dotted(n.func) or "").endswith("__Get_csr_map")]
+    if len(map_calls) != 1:
+        raise AnalysisError("R3.3: __Assemble_csr no longer calls __Get_csr_map exactly once")
+    map_call = map_calls[0]
+    dict_param = fa.params()[1]
+    G = L.resolve(map_call.args[3]) if len(map_call.args) > 3 else None
+    Gtxt = L.text(map_call.args[3]) if G is not None else ""
+    comp = [c for c in ast.walk(G)] if G is not None else []
+    gens = [c for c in comp if isinstance(c, (ast.GeneratorExp, ast.ListComp))]
+    has_filter = bool(gens) and any(isinstance(i_, ast.Compare) and isinstance(i_.ops[0], ast.IsNot) and isinstance(i_.comparators[0], ast.Constant) and i_.comparators[0].value is None for c in gens for g in c.generators for i_ in g.ifs) and any(norm_text(g.iter) == f"{dict_param}.items()" for c in gens for g in c.generators)
     if has_filter:
-        r.ok("groups = tuple(g for g, X_e in ... if X_e is not None)")
+        r.ok(f"contributing groups = {Gtxt}")
     else:
-        r.fail(fa.qualname, "filter", fa.file, groups_def.lineno, "__Assemble_csr", f"the contributing-group tuple is not filtered on `X_e is not None`: {gtxt}")
-    r.instance(fn=fa.qualname)
-    comp = [c for c in ast.walk(data_def.value) if isinstance(c, (ast.GeneratorExp, ast.ListComp))]
-    ok = bool(comp) and all(isinstance(g.iter, ast.Name) and g.iter.id == "groups" and not g.ifs for c in comp for g in c.generators)
-    if ok:
-        r.ok("data = concatenate([...ravel() for g in groups]) iterates the same tuple, unfiltered")
-    else:
-        r.fail(fa.qualname, "data-order", fa.file, data_def.lineno, "__Assemble_csr", f"`data` is not concatenated over the same `groups` tuple as the cached map: {norm_text(data_def.value)}")
-    r.instance(fn=fa.qualname)
-    params = [a.arg for a in fa.node.args.args]
-    args = [norm_text(a) for a in map_call.args]
-    if args == ["dof_n", "isMatrix", "Ndof", "groups"]:
-        r.ok("map key = (dof_n, isMatrix, Ndof, groups)")
-    else:
-        r.fail(fa.qualname, "key", fa.file, map_call.lineno, "__Assemble_csr", f"__Get_csr_map is called with {args}, expected (dof_n, isMatrix, Ndof, groups)")
-    # bincount uses inv / data / nnz
+        r.fail(fa.qualname, "filter", fa.file, map_call.lineno, "__Assemble_csr", f"the group tuple handed to the cached map is not `{dict_param}.items()` filtered on `is not None`: {Gtxt}")
+    # bincount: weights come from a concatenation over the same tuple
     r.instance(fn=fa.qualname)
     bcs = [n for n in ast.walk(fa.node) if isinstance(n, ast.Call) and (dotted(n.func) or "") == "np.bincount"]
-    okb = bool(bcs)
+    ok = bool(bcs)
+    detail = ""
+    map_txt = L.text(map_call)
     for b in bcs:
         w = next((k.value for k in b.keywords if k.arg == "weights"), None)
         ml = next((k.value for k in b.keywords if k.arg == "minlength"), None)
-        if not (b.args and norm_text(b.args[0]) == "inv" and w is not None and norm_text(w).split(".")[0] == "data" and ml is not None and norm_text(ml) == "nnz"):
-            okb = False
-    unpack_ok = any(isinstance(n, ast.Assign) and isinstance(n.targets[0], ast.Tuple) and [norm_text(e) for e in n.targets[0].elts] == ["inv", "indices", "indptr", "nnz"] and n.value is map_call for n in ast.walk(fa.node))
-    csr_ok = any(isinstance(n, ast.Call) and (dotted(n.func) or "").endswith("csr_matrix") and n.args and norm_text(n.args[0]) == "(csr_data, indices, indptr)" for n in ast.walk(fa.node))
-    if okb and unpack_ok and csr_ok:
-        r.ok("csr_data = bincount(inv, weights=data, minlength=nnz); csr_matrix((csr_data, indices, indptr))")
+        wd = L.resolve(w.value if isinstance(w, ast.Attribute) and w.attr in ("real", "imag") else w) if w is not None else None
+        wtxt = L.text(wd) if wd is not None else ""
+        inv_txt = L.text(b.args[0]) if b.args else ""
+        ml_txt = L.text(ml) if ml is not None else ""
+        comps = [c for c in ast.walk(wd) if isinstance(c, (ast.ListComp, ast.GeneratorExp))] if wd is not None else []
+        same_groups = bool(comps) and all(L.text(g.iter) == Gtxt and not g.ifs for c in comps for g in c.generators)
+        if not ("np.concatenate" in wtxt and same_groups and inv_txt == f"{map_txt}[0]" and ml_txt == f"{map_txt}[3]"):
+            ok = False
+            detail = f"bincount({inv_txt}, weights={wtxt}, minlength={ml_txt})"
+    if ok:
+        r.ok("csr_data = bincount(map[0], weights=concatenate(values of the same tuple, unfiltered), minlength=map[3])")
     else:
-        r.fail(fa.qualname, "bincount", fa.file, fa.lineno, "__Assemble_csr", "the reduction is not bincount(inv, weights=data[.real/.imag], minlength=nnz) fed into csr_matrix((csr_data, indices, indptr)) with (inv, indices, indptr, nnz) unpacked in the order the map returns them")
+        r.fail(fa.qualname, "data-order", fa.file, fa.lineno, "__Assemble_csr", f"the values are not summed with bincount(inv, weights=<concatenation over the same group tuple as the cached map>, minlength=nnz): {detail}")
+    r.instance(fn=fa.qualname)
+    args = [L.text(a) for a in map_call.args[:3]]
+    want = fm.params()[1:4]
+    if args == want:
+        r.ok(f"map key = ({', '.join(want)}, groups)")
+    else:
+        r.fail(fa.qualname, "key", fa.file, map_call.lineno, "__Assemble_csr", f"__Get_csr_map is called with {args}, its parameters are {want}")
+    r.instance(fn=fa.qualname)
+    csr = [n for n in ast.walk(fa.node) if isinstance(n, ast.Call) and (dotted(n.func) or "").endswith("csr_matrix") and n.args and isinstance(L.resolve(n.args[0]), ast.Tuple) and len(L.resolve(n.args[0]).elts) == 3]
+    okc = False
+    for c in csr:
+        d, ind, ptr = L.resolve(c.args[0]).elts
+        dtexts = [L.text(d)] if not (isinstance(d, ast.Name) and len(L.all_defs(d.id)) > 1) else [L.text(v) for v in L.all_defs(d.id)]
+        if all("np.bincount" in t for t in dtexts) and L.text(ind) == f"{map_txt}[1]" and L.text(ptr) == f"{map_txt}[2]":
+            okc = True
+    if okc:
+        r.ok("csr_matrix((bincount(...), map[1], map[2]))")
+    else:
+        r.fail(fa.qualname, "bincount", fa.file, fa.lineno, "__Assemble_csr", "the matrix is not built as csr_matrix((summed data, indices, indptr)) with indices / indptr taken from positions 1 / 2 of the cached map")
     # map function: reads only parameters
     r.instance(fn=fm.qualname)
     selfreads = [norm_text(n) for n in ast.walk(fm.node) if isinstance(n, ast.Attribute) and isinstance(n.value, ast.Name) and n.value.id == "self"]
@@ -165,22 +172,35 @@ def csr_rules(ctx):
     if selfreads:
         r.fail(fm.qualname, "key-coverage", fm.file, fm.lineno, "__Get_csr_map", f"the cached map reads {sorted(set(selfreads))}, which is not part of its cache key (name, args)")
     else:
-        r.ok("__Get_csr_map reads nothing but its parameters (dof_n, isMatrix, Ndof, groups)")
-    # return order and searchsorted on its own pattern
+        r.ok("__Get_csr_map reads nothing but its parameters")
     r.instance(fn=fm.qualname)
-    rets = [n for n in ast.walk(fm.node) if isinstance(n, ast.Return)]
-    rtxt = norm_text(rets[-1].value) if rets else ""
-    ss = [n for n in ast.walk(fm.node) if isinstance(n, ast.Call) and (dotted(n.func) or "") == "np.searchsorted"]
-    ok = rtxt.replace(" ", "") == "(inv,matrix.indices,matrix.indptr,matrix.nnz)" and len(ss) == 1 and norm_text(ss[0].args[0]) == "canon"
+    Lm = Locals(fm.node)
+    gparam = fm.params()[4]
+    rets = [n for n in ast.walk(fm.node) if isinstance(n, ast.Return) and isinstance(n.value, ast.Tuple) and len(n.value.elts) == 4]
+    ok = False
+    detail = ""
+    if rets:
+        inv, ind, ptr, nnz = rets[-1].value.elts
+        inv_t, ind_t, ptr_t, nnz_t = (Lm.text(x) for x in (inv, ind, ptr, nnz))
+        ss = [c for c in ast.walk(Lm.expand(inv)) if isinstance(c, ast.Call) and (dotted(c.func) or "") == "np.searchsorted"]
+        sorted_called = any(isinstance(c, ast.Call) and isinstance(c.func, ast.Attribute) and c.func.attr == "sort_indices" for c in ast.walk(fm.node))
+        hay = norm_text(ss[0].args[0]) if ss else ""
+        ok = bool(ss) and ".indices" in hay and ".indptr" in hay and sorted_called and ind_t.endswith(".indices") and ptr_t.endswith(".indptr") and nnz_t.endswith(".nnz") and ind_t[: -len(".indices")] == ptr_t[: -len(".indptr")] == nnz_t[: -len(".nnz")]
+        detail = f"return ({inv_t[:60]}..., {ind_t[-30:]}, {ptr_t[-30:]}, {nnz_t[-30:]})"
     loop_ok = False
     for n in ast.walk(fm.node):
-        if isinstance(n, ast.For) and isinstance(n.iter, ast.Name) and n.iter.id == "groups":
-            body = norm_text(n)
-            loop_ok = body.count("list_rows.append") == 2 and body.count("list_cols.append") == 2 and "Get_rows_e(dof_n)" in body and "Get_columns_e(dof_n)" in body and "Get_assembly_e(dof_n)" in body
+        if isinstance(n, ast.For) and isinstance(n.iter, ast.Name) and n.iter.id == gparam:
+            apps = [c for c in ast.walk(n) if isinstance(c, ast.Call) and isinstance(c.func, ast.Attribute) and c.func.attr == "append"]
+            tgt = {}
+            for c in apps:
+                tgt.setdefault(norm_text(c.func.value), []).append(Lm.text(c.args[0]))
+            if len(tgt) == 2 and all(len(v) == 2 for v in tgt.values()):
+                alltxt = " ".join(x for v in tgt.values() for x in v)
+                loop_ok = "Get_rows_e(" in alltxt and "Get_columns_e(" in alltxt and "Get_assembly_e(" in alltxt
     if ok and loop_ok:
-        r.ok("map returns (inv, indices, indptr, nnz); inv = searchsorted(canon, rows*ncol+cols); rows/cols appended per group in `groups` order")
+        r.ok("map returns (searchsorted(pattern of its own sorted csr, rows*ncol+cols), indices, indptr, nnz); rows/cols appended per group in key order")
     else:
-        r.fail(fm.qualname, "map-shape", fm.file, fm.lineno, "__Get_csr_map", "the map no longer has the shape (loop over `groups` appending rows and cols in both branches; inv = searchsorted(canon, ...); return (inv, indices, indptr, nnz))")
+        r.fail(fm.qualname, "map-shape", fm.file, fm.lineno, "__Get_csr_map", f"the map no longer has the shape (loop over the group tuple appending rows and cols in both branches; slot = searchsorted(canonical index of its own sorted pattern, ...); return (slots, indices, indptr, nnz)): {detail}")
     # connectivity immutable outside __init__
     r.instance(fn=GE)
     ge = repo.cls(GE)
@@ -208,19 +228,25 @@ def slot_rules(ctx):
     simu = repo.cls(SIMU)
     fa = simu.methods["Assembly"]
     r.instance(fn=fa.qualname)
-    calls = {}
-    for n in ast.walk(fa.node):
-        if isinstance(n, ast.Assign) and isinstance(n.value, ast.Call) and (dotted(n.value.func) or "").endswith("__Assemble_csr") and isinstance(n.targets[0], ast.Name):
-            c = n.value
-            idx = [s.slice.value for s in ast.walk(c.args[0]) if isinstance(s, ast.Subscript) and isinstance(s.slice, ast.Constant)]
-            ismat = c.args[3].value if len(c.args) > 3 and isinstance(c.args[3], ast.Constant) else None
-            calls[n.targets[0].id] = (idx[0] if idx else None, ismat)
-    want = {"K": (0, True), "C": (1, True), "M": (2, True), "F": (3, False)}
-    ret = [norm_text(n.value) for n in ast.walk(fa.node) if isinstance(n, ast.Return)]
-    if calls == want and ret and ret[-1].replace(" ", "") == "(K,C,M,F)":
-        r.ok("Assembly: K<-slot0, C<-slot1, M<-slot2 (matrices), F<-slot3 (vector); returns (K, C, M, F)")
+    from ..flow import Locals
+
+    La = Locals(fa.node)
+    rets = [n for n in ast.walk(fa.node) if isinstance(n, ast.Return) and isinstance(n.value, ast.Tuple)]
+    got = []
+    if rets and len(rets[-1].value.elts) == 4:
+        for e in rets[-1].value.elts:
+            c = La.resolve(e)
+            if isinstance(c, ast.Call) and (dotted(c.func) or "").endswith("__Assemble_csr"):
+                idx = [s_.slice.value for s_ in ast.walk(c.args[0]) if isinstance(s_, ast.Subscript) and isinstance(s_.slice, ast.Constant)]
+                ismat = c.args[3].value if len(c.args) > 3 and isinstance(c.args[3], ast.Constant) else None
+                got.append((idx[0] if idx else None, ismat))
+            else:
+                got.append(None)
+    want = [(0, True), (1, True), (2, True), (3, False)]
+    if got == want:
+        r.ok("Assembly returns (csr(slot 0), csr(slot 1), csr(slot 2), vector(slot 3))")
     else:
-        r.fail(fa.qualname, "slots", fa.file, fa.lineno, "Assembly", f"slot table is {calls}, return {ret}; expected {want} and (K, C, M, F)")
+        r.fail(fa.qualname, "slots", fa.file, fa.lineno, "Assembly", f"the returned 4-tuple is built from slots/kinds {got}; expected {want} (K, C, M matrices and the F vector)")
     # producers
     nprod = 0
     for ci in repo.subclasses(simu, strict=False):
